@@ -2,6 +2,7 @@
 Model/Driver.lean — request dispatcher of the line protocol (pure: `List String → String`).
 -/
 import RdVerif.Model.Nuclide
+import RdVerif.Model.Entry
 
 namespace RdVerif.Driver
 
@@ -26,9 +27,75 @@ def handleNuclide : List String → Option String
       showPy encCodes (attrState cs) ++ "|" ++ showPy toString (attrId cs)
   | _ => none
 
-def handle (req : List String) : String :=
-  match handleNuclide req with
-  | some r => r
-  | none => "bad-request"
+/-- driver state: the nuclide list of the dataset in use (`set_names`) -/
+structure State where
+  names : List (List Ch) := []
+  stable : List (List Ch) := []
+
+def decAmount : String → Option AmountKind
+  | "nonneg" => some .nonneg | "negative" => some .negative | "nan" => some .nan
+  | "nonnumeric" => some .nonNumeric | _ => none
+
+def decUnitKind : String → Option UnitKind
+  | "num" => some .num | "activity" => some .activity | "moles" => some .moles | "mass" => some .mass
+  | "unknown" => some .unknown | _ => none
+
+/-- key encodings inside one field: `s:<codes>`, `i:<int>`, `o` -/
+def decKey1 (t : String) : Option Key :=
+  if t == "o" then some .other
+  else if t.startsWith "s:" then (decCodes (t.drop 2).toString).map Key.str
+  else if t.startsWith "i:" then (t.drop 2).toString.toInt?.map Key.int
+  else none
+
+def decEntries : List String → Option (List (Key × AmountKind))
+  | [] => some []
+  | k :: a :: r => do
+    let k ← decKey1 k; let a ← decAmount a; let rest ← decEntries r
+    pure ((k, a) :: rest)
+  | _ => none
+
+def showNames (l : List (List Ch)) : String := " ".intercalate ((l.map encCodes))
+
+def decKey : List String → Option Key
+  | ["str", s] => (decCodes s).map Key.str
+  | ["int", n] => n.toInt?.map Key.int
+  | ["other"] => some Key.other
+  | _ => none
+
+def handle (st : State) (req : List String) : State × String :=
+  match req with
+  | "set_names" :: ns =>
+    match ns.mapM decCodes with
+    | some l => ({ st with names := l }, s!"ok {l.length}")
+    | none => (st, "bad-request")
+  | "set_stable" :: ns =>
+    match ns.mapM decCodes with
+    | some l => ({ st with stable := l }, s!"ok {l.length}")
+    | none => (st, "bad-request")
+  | "ctor" :: cls :: unit :: es =>
+    match (if cls == "hp" then some Cls.hp else if cls == "float" then some Cls.float else none),
+          decUnitKind unit, decEntries es with
+    | some c, some u, some e =>
+      (st, showPy showNames (ctor c st.names (fun n => st.stable.contains n) e u))
+    | _, _, _ => (st, "bad-request")
+  | "remove_one" :: k :: contents =>
+    match decKey1 k, contents.mapM decCodes with
+    | some key, some c => (st, showPy showNames (remove st.names c (.one key)))
+    | _, _ => (st, "bad-request")
+  | "remove_many" :: n :: rest =>
+    match n.toNat? with
+    | some n =>
+      match (rest.take n).mapM decKey1, (rest.drop n).mapM decCodes with
+      | some ks, some c => (st, showPy showNames (remove st.names c (.many ks)))
+      | _, _ => (st, "bad-request")
+    | none => (st, "bad-request")
+  | "parse_nuc" :: k =>
+    match decKey k with
+    | some key => (st, showPy encCodes (parseNuclide key st.names))
+    | none => (st, "bad-request")
+  | _ =>
+    match handleNuclide req with
+    | some r => (st, r)
+    | none => (st, "bad-request")
 
 end RdVerif.Driver
